@@ -18,7 +18,7 @@
 (* The module defines actions and properties only; bounded Next relations  *)
 (* live in the MC_* / Gen_* modules, the trace-driven one in Trace.tla.    *)
 (***************************************************************************)
-EXTENDS Derive, TLC
+EXTENDS Derive, Giant, TLC
 
 CONSTANTS NR,       \* number of sequence registers
           NK,       \* number of k-mer registers
@@ -557,6 +557,37 @@ DeriveProg(decl) ==
 DeriveVerdict(decl, malformed) ==
     /\ out' = [compiled |-> (malformed = "none" /\ DeclWellFormed(decl))]
     /\ OnlyOut
+
+(***************************************************************************)
+(* Sequences longer than 2^32 bits (Giant.tla).  The sequence is virtual:  *)
+(* these actions are stateless, `out` is a function of the request alone.  *)
+(* Edits act on an owned copy, which is observed and dropped.              *)
+(***************************************************************************)
+GObs(c, path, probes, how) == out' = GObsRes(c, path, probes, how) /\ OnlyOut
+GViewA(c, path) == out' = GViewRes(c, path) /\ OnlyOut
+GIt(c, path, kind, w, skip, take) ==
+    /\ kind \in {"windows", "chunks"} => w >= 1
+    /\ out' = GItRes(c, path, kind, w, skip, take)
+    /\ OnlyOut
+GEdit(c, e, probes) == out' = GEditRes(c, e, probes) /\ OnlyOut
+GInt(c, path) ==
+    /\ GPath(c, path).ok => (GPath(c, path).len > 0 /\ GPath(c, path).len * W(c) <= 64)
+    /\ out' = GIntRes(c, path)
+    /\ OnlyOut
+GEq(c, pa, pb) == out' = GEqRes(c, pa, pb) /\ OnlyOut
+GCopy(c, path, t) ==
+    LET p == GPath(c, path)
+    IN  /\ t # "toowned" => TransformOK(c, t)
+        /\ out' = IF ~p.ok THEN Panic
+                  ELSE IF t = "toowned" THEN View(c, GSyms(c, p.off, p.len))
+                  ELSE View(c, Transform(c, GSyms(c, p.off, p.len), t))
+        /\ OnlyOut
+GKmer(c, path, K) ==
+    LET p == GPath(c, path)
+    IN  /\ out' = IF ~p.ok THEN Panic
+                  ELSE IF p.len # K THEN [ok |-> FALSE]
+                  ELSE [ok |-> TRUE, kv |-> KView([c |-> c, k |-> K, st |-> 64, p |-> GSyms(c, p.off, p.len)])]
+        /\ OnlyOut
 
 (***************************************************************************)
 (* The codec tables as an action (C05): everything one cell of a codec's   *)
